@@ -43,16 +43,80 @@ def _solve_idx(arg):
     return r
 
 
-def solve_parallel(vcs, timeout_ms, nproc=NPROC):
+def solve_parallel(vcs, timeout_ms, nproc=NPROC, stop_on_first=False):
+    """one forked process per VC, at most nproc at a time, each under a hard wall-clock limit (z3 does not always honour
+    its own timeout inside the sequence solver); a killed query is reported as verdict 'timeout'"""
     if not vcs:
         return []
     _G['vcs'] = vcs
-    if nproc <= 1 or len(vcs) < 4:
-        return [_solve_idx((i, timeout_ms)) for i in range(len(vcs))]
     ctx = mp.get_context('fork')
-    with ctx.Pool(min(nproc, len(vcs))) as pool:
-        res = pool.map(_solve_idx, [(i, timeout_ms) for i in range(len(vcs))], chunksize=1)
-    return sorted(res, key=lambda r: r['idx'])
+    hard = timeout_ms / 1000.0 * 2 + 6
+    results = [None] * len(vcs)
+    pending = list(range(len(vcs)))
+    active = {}     # idx -> (proc, conn, t_start)
+    stop = False
+    while (pending and not stop) or active:
+        while pending and len(active) < nproc and not stop:
+            i = pending.pop(0)
+            if z3_trivial(vcs[i]):
+                results[i] = dict(name=vcs[i].name, kind=vcs[i].kind, verdict='unsat', backend='trivial', time_s=0.0, model=None, reason='', idx=i)
+                continue
+            pr, pw = ctx.Pipe(duplex=False)
+            p = ctx.Process(target=_child_solve, args=(i, timeout_ms, pw))
+            p.start()
+            pw.close()
+            active[i] = (p, pr, time.time())
+        done = []
+        for i, (p, pr, t0) in active.items():
+            if pr.poll(0):
+                try:
+                    results[i] = pr.recv()
+                except EOFError:
+                    results[i] = dict(name=vcs[i].name, kind=vcs[i].kind, verdict='error', backend='-', time_s=time.time() - t0, model=None,
+                                      reason='solver process died', idx=i)
+                done.append(i)
+            elif not p.is_alive():
+                results[i] = dict(name=vcs[i].name, kind=vcs[i].kind, verdict='error', backend='-', time_s=time.time() - t0, model=None,
+                                  reason=f'solver process exited with {p.exitcode}', idx=i)
+                done.append(i)
+            elif time.time() - t0 > hard:
+                p.kill()
+                results[i] = dict(name=vcs[i].name, kind=vcs[i].kind, verdict='timeout', backend='z3 (killed at the hard limit)',
+                                  time_s=time.time() - t0, model=None, reason='hard wall-clock limit', idx=i)
+                done.append(i)
+        for i in done:
+            p, pr, _ = active.pop(i)
+            p.join(1)
+            pr.close()
+            r = results[i]
+            if stop_on_first and vcs[i].kind != 'cover' and r['verdict'] != 'unsat':
+                stop = True
+        if stop:
+            for i, (p, pr, _) in list(active.items()):
+                p.kill()
+                p.join(1)
+                pr.close()
+            active.clear()
+        if not done:
+            time.sleep(0.005)
+    return [r for r in results if r is not None]
+
+
+def z3_trivial(vc):
+    import z3
+    return vc.kind != 'cover' and z3.is_true(vc.goal)
+
+
+def _child_solve(i, timeout_ms, conn):
+    try:
+        r = _solve_idx((i, timeout_ms))
+    except BaseException as e:     # noqa
+        r = dict(name=_G['vcs'][i].name, kind=_G['vcs'][i].kind, verdict='error', backend='-', time_s=0.0, model=None, reason=repr(e), idx=i)
+    try:
+        conn.send(r)
+    finally:
+        conn.close()
+        os._exit(0)
 
 
 class FunctionResult:
@@ -105,17 +169,7 @@ def verify_function(reg, contract, timeout_ms, fn_ast=None, nproc=NPROC, stop_on
         return fr
     fr.gen_s = time.time() - t0
     t1 = time.time()
-    if stop_on_first:
-        out = []
-        for i, vc in enumerate(vcs):
-            _G['vcs'] = vcs
-            r = _solve_idx((i, timeout_ms))
-            out.append(r)
-            if vc.kind != 'cover' and r['verdict'] != 'unsat':
-                break
-        fr.results = out
-    else:
-        fr.results = solve_parallel(vcs, timeout_ms, nproc)
+    fr.results = solve_parallel(vcs, timeout_ms, nproc, stop_on_first=stop_on_first)
     fr.solve_s = time.time() - t1
     return fr
 
